@@ -1,13 +1,14 @@
 //! Checks of the enc group: C34 C36 C37 C38.
 mod props;
+mod util;
 
 fn main() {
     let ctx = engine::Ctx::from_args();
     match ctx.id.as_str() {
-        // "C34" => props::c34::run(ctx),
-        // "C36" => props::c36::run(ctx),
-        // "C37" => props::c37::run(ctx),
-        // "C38" => props::c38::run(ctx),
+        "C34" => props::c34::run(ctx),
+        "C36" => props::c36::run(ctx),
+        "C37" => props::c37::run(ctx),
+        "C38" => props::c38::run(ctx),
         other => engine::harness_error(&format!("property {other} is not served by verif-enc")),
     }
 }
